@@ -4,6 +4,7 @@ from the current working tree on every run.
 """
 import ast
 import builtins as _b
+import copy
 import os
 import sys
 import types
@@ -461,6 +462,9 @@ def make_builtins():
 # module table
 
 
+_MISSING = object()
+
+
 class Lib(object):
     """A shadow-loaded copy of the bitcoin package."""
 
@@ -483,6 +487,61 @@ class Lib(object):
                      'bitcoin.signmessage', 'bitcoin.signature', 'bitcoin.core._bignum', 'bitcoin.rpc',
                      'bitcoin.core.contrib.ripemd160'):
             self.load(name)
+        self._snapshot()
+
+    # -- module/class level state: every path starts from the state right after import ("fresh process"), so that
+    #    memo tables, class-level scratch objects and counters a change may introduce cannot carry symbolic terms of one
+    #    path into the next; history-dependent behaviour is exercised by harnesses that make several calls on ONE path
+    def _snapshot(self):
+        self._attrs = []          # (owner, {name: value at import})
+        self._containers = []     # (container, shallow copy at import)
+        self._caches = []         # functools.lru_cache wrappers
+        seen = set()
+
+        def note(v):
+            if id(v) in seen:
+                return
+            seen.add(id(v))
+            if type(v) in (dict, list, set, bytearray):
+                self._containers.append((v, copy.copy(v)))
+            f = getattr(v, '__func__', v)
+            if callable(getattr(f, 'cache_clear', None)):
+                self._caches.append(f)
+        for m in list(self.modules.values()):
+            d = {k: v for k, v in vars(m).items() if not (k.startswith('__') and k.endswith('__'))}
+            self._attrs.append((m, d))
+            for v in d.values():
+                note(v)
+                if isinstance(v, type) and str(getattr(v, '__module__', '')).startswith('bitcoin') and ('cls', id(v)) not in seen:
+                    seen.add(('cls', id(v)))
+                    cd = {k: cv for k, cv in vars(v).items() if k not in ('__dict__', '__weakref__')}
+                    self._attrs.append((v, cd))
+                    for cv in cd.values():
+                        note(cv)
+
+    def reset(self):
+        for owner, d in self._attrs:
+            cur = vars(owner)
+            if len(cur) != len(d):
+                for k in [k for k in cur if k not in d and not (k.startswith('__') and k.endswith('__'))]:
+                    try:
+                        delattr(owner, k)
+                    except (AttributeError, TypeError):
+                        pass
+            for k, v in d.items():
+                if cur.get(k, _MISSING) is not v:
+                    try:
+                        setattr(owner, k, v)
+                    except (AttributeError, TypeError):
+                        pass
+        for c, orig in self._containers:
+            if type(c) in (list, bytearray):
+                c[:] = orig
+            else:
+                c.clear()
+                c.update(orig)
+        for f in self._caches:
+            f.cache_clear()
 
     def __getitem__(self, name):
         return self.modules[name]
